@@ -191,9 +191,15 @@ package exec
 //@ extern func exec.(*Task).Errorf
 //@   ensures t.state == TaskErr && t.err != nil
 //@   modifies t.state, t.err, t.waitc
-//@ extern func exec.TaskDep.NumTask
+// A dependency comprises its head task alone (narrow) or the head's whole phase group (shuffle), in group order.
+//@ spec func depTasks(d TaskDep) int = ite(d.Head == nil, 0, ite(len(d.Head.Group) > 0, len(d.Head.Group), 1))
+//@ func exec.TaskDep.NumTask
+//@   ensures result == depTasks(d)
 //@   modifies nothing
-//@ extern func exec.TaskDep.Task
+//@ func exec.TaskDep.Task (i)
+//@   requires d.Head != nil
+//@   panics_if i != 0 && (i < 0 || i >= len(d.Head.Group))
+//@   ensures result == ite(i == 0, d.Head, d.Head.Group[i])
 //@   modifies nothing
 
 //@ func exec.(*bigmachineExecutor).Run
